@@ -153,6 +153,9 @@ class FieldTaint:
                 out = EMPTY
                 for a in e.args:
                     out |= self.elems(a, env)
+                if name in ("set", "frozenset") and getattr(self, "sets_lose_order", False):
+                    # set(seq) forgets order and multiplicity of a sequence: only part of a positional layout
+                    out = relabel(out, "part")
                 for k in e.keywords:
                     out |= self.L(k.value, env)
                 return out
@@ -205,13 +208,17 @@ class FieldTaint:
                     self.bind(t, relabel(self.elems(a, env), None, zipped=True), env)
             elif iter_expr is not None and isinstance(iter_expr, ast.Call) and isinstance(iter_expr.func, ast.Name) and \
                     iter_expr.func.id == "enumerate" and len(target.elts) == 2 and iter_expr.args:
-                self.bind(target.elts[1], self.elems(iter_expr.args[0], env), env)
+                el = self.elems(iter_expr.args[0], env)
+                if getattr(self, "one_sided", False):
+                    el = relabel(el, None, zipped=True)
+                self.bind(target.elts[1], el, env)
                 self.bind(target.elts[0], EMPTY, env)
             elif iter_expr is not None and isinstance(iter_expr, ast.Call) and isinstance(iter_expr.func, ast.Attribute) and \
                     iter_expr.func.attr == "items" and len(target.elts) == 2:
                 base = self.L(iter_expr.func.value, env)
+                one = bool(getattr(self, "one_sided", False))
                 self.bind(target.elts[0], relabel(base, "keys"), env)
-                self.bind(target.elts[1], relabel(base, "full"), env)
+                self.bind(target.elts[1], relabel(base, "full", zipped=True) if one else relabel(base, "full"), env)
             else:
                 for t in target.elts:
                     self.bind(t, value_labels, env)
@@ -221,7 +228,11 @@ class FieldTaint:
     def comp_env(self, generators, env):
         env2 = dict(env)
         for g in generators:
-            self.bind(g.target, self.elems(g.iter, env2), env2, g.iter)
+            labs = self.elems(g.iter, env2)
+            if getattr(self, "one_sided", False):
+                # elements obtained by iterating ONE operand: a comparison on them sees only that operand's elements (like zip)
+                labs = frozenset((p, f, fl, True) for (p, f, fl, z) in labs)
+            self.bind(g.target, labs, env2, g.iter)
         return env2
 
     def root_of_target(self, t):
